@@ -33,6 +33,7 @@ func TestVerifC15_lengths(t *testing.T) {
 	c15SkipNonDefault(t)
 	r := verifmc.Start(t, "C15", "lengths")
 	defer r.Finish()
+	c15RecordBackend(r)
 	if err := keccak.SelfTest(); err != nil {
 		t.Fatal(err)
 	}
@@ -136,6 +137,7 @@ func TestVerifC15_partitions(t *testing.T) {
 	c15SkipNonDefault(t)
 	r := verifmc.Start(t, "C15", "partitions")
 	defer r.Finish()
+	c15RecordBackend(r)
 	if err := keccak.SelfTest(); err != nil {
 		t.Fatal(err)
 	}
